@@ -251,9 +251,17 @@ def run(chk, args):
         if isinstance(rp, dict) and rp.get("kind") == "listener":
             from checks import c05_listener
             return c05_listener.replay_part(chk, rp)
+        if isinstance(rp, dict) and rp.get("kind") == "servermain":
+            from checks import c05_servermain
+            return c05_servermain.replay_part(chk, rp)
         return _run_core(chk, args)
-    if only is None or only - {"listener"}:
+    if only is None or only - {"listener", "servermain"}:
         _run_core(chk, args)
     if only is None or "listener" in only:
         from checks import c05_listener
         c05_listener.run_listener_part(chk, args)
+    # the server binary around the listener: accept loop, per-connection handler, copy loops, stats thread,
+    # shutdown (spec/ServerMain), see notes/ServerMain.md
+    if only is None or "servermain" in only:
+        from checks import c05_servermain
+        c05_servermain.run_servermain_part(chk, args)
